@@ -1,4 +1,5 @@
 import SeqIoModel.Proofs.Fill
+import SeqIoModel.Proofs.FastaFault
 /-!
 # C14 – source errors surface unchanged; interrupted reads are invisible
 
@@ -44,5 +45,29 @@ theorem interrupted_invisible (b : BufRd) (script : List ReadEv) (chunk : Nat)
     (fillBuf b).1.buf = (fillBuf b2).1.buf ∧ (fillBuf b).2 = (fillBuf b2).2 ∧
     (fillBuf b).1.src.cursor = (fillBuf b2).1.src.cursor :=
   fillBuf_chunk_independent b script chunk h1 h2
+
+/-- Reader level (FASTA), for every input, capacity, growing policy, ARBITRARY read script and history
+of operations (reads of all kinds, set iteration, positions, seeks):
+(c) if no I/O error is observed the whole history is accepted by the abstract reader;
+(a, b) everything observed before the first I/O error is accepted by the abstract reader – exactly the
+leading records, nothing invented, no premature end of input, no format error out of thin air – and that
+first I/O error carries the kind of the FIRST failing event of the script;
+(d) a script without failing events (any chunking, any pattern of interrupted reads) never produces an
+I/O error. -/
+theorem fasta_first_fault_surfaces (inp : List UInt8) (cap : Nat) (hcap : 3 ≤ cap) (pol : Pol)
+    (hpol : Fasta.PolGrows pol) (script : List ReadEv) (chunk : Nat) (ops : List Fasta.Hist.Op) :
+    ((∀ o ∈ Fasta.Hist.runM (Fasta.Hist.mkMSt inp cap pol script chunk) ops, Fasta.Fault.isIoErr o = false) →
+      Fasta.Hist.runA (Fasta.Hist.items inp) Fasta.Hist.aInit ops
+        (Fasta.Hist.runM (Fasta.Hist.mkMSt inp cap pol script chunk) ops) = true) ∧
+    (∀ j o, (Fasta.Hist.runM (Fasta.Hist.mkMSt inp cap pol script chunk) ops)[j]? = some o →
+      Fasta.Fault.isIoErr o = true →
+      (∀ i o', i < j → (Fasta.Hist.runM (Fasta.Hist.mkMSt inp cap pol script chunk) ops)[i]? = some o' →
+        Fasta.Fault.isIoErr o' = false) →
+      Fasta.Hist.runA (Fasta.Hist.items inp) Fasta.Hist.aInit (ops.take j)
+        ((Fasta.Hist.runM (Fasta.Hist.mkMSt inp cap pol script chunk) ops).take j) = true ∧
+      ∃ used k rest, script = used ++ .fail k :: rest ∧ NoFail used ∧ o = .error (.io k)) ∧
+    (NoFail script → ∀ o ∈ Fasta.Hist.runM (Fasta.Hist.mkMSt inp cap pol script chunk) ops,
+      Fasta.Fault.isIoErr o = false) :=
+  Fasta.Fault.fasta_first_fault_surfaces inp cap hcap pol hpol script chunk ops
 
 end SeqIo.Thm.C14
